@@ -28,7 +28,7 @@ m = {
     "hooks": {"guard": "--cfg mpeg2ts_reader_verif", "enable": "no hooks are needed: every observable is reached through the public API; cfg(fuzzing) (already in the library) selects the CRC-bypass build for C01", "baseline_off_cmd": "cd /repo && cargo test --workspace --no-fail-fast --offline", "source_commits": [], "add_only": True},
     "engines": [{"name": "lean-proof+correspondence", "path": "/verif/check", "serves_properties": [c["property_id"] for c in checks], "kind_free_text": "Lean 4 kernel-checked theorems over a model (lean/Ts) + Rust differential harness (harness/) driven by check"}],
     "checks": checks,
-    "notes": "fix: commits in /repo (F1a, F1b, F3, F4, F6) are recorded in known_findings.json; see DESIGN.md section 8",
+    "notes": "fix: commits in /repo (F1a, F1b, F3, F4, F6, F11) are recorded in known_findings.json; see DESIGN.md section 8",
     "not_applicable": na,
 }
 json.dump(m, open(os.path.join(V, "MANIFEST.json"), "w"), indent=1)
